@@ -966,6 +966,9 @@ func (c *Check) hookFiring() func(ssa.CallInstruction) bool {
 
 func (c *Check) staleAcrossHooks(kinds map[string]*recKind) {
 	c.staleAcrossHooksRule("R5", kinds)
+	// the cascades (close a deployment -> its groups, orders, bids, leases, payments) enumerate children by key prefix:
+	// the prefix of one parent must select that parent's records only (key layouts, shared with C06-R5)
+	c.keyLayoutsRule("R6", []string{"x/market/keeper", "x/deployment/keeper", "x/escrow/keeper"}, 4, 6)
 	// the lease handler writes lease / order / bid from copies read before PaymentCreate; that is only sound because
 	// PaymentCreate fails whenever its settlement fired the close hooks (shared with C03 / C05)
 	c.paymentCreateGuards("R5", c.L.settleCore(), mutatingFuncs(c.L, c.L.pkgFuncs("x/escrow/keeper")))
